@@ -32,6 +32,12 @@ def gen_cases(seed, tier):
         # still the same polynomial -- the derivative must not notice  (seeded change S3_C18: states clamped at 0 in the right-hand side)
         if all(rx["type"] == "massaction" for rx in spec["reactions"]) and rng.random() < 0.6:
             x[rng.choice(list(x))] = rng.choice([0.004, 0.011, 0.0005])
+        # rate constants in other units (nM, counts per cell: a production rate of 1500, 3000): the step in the parameter is absolute (h = 0.01),
+        # tiny next to such a value, and still has to be taken  (seeded change S8_C18: a perturbed parameter set "close" to the current one,
+        # by numpy's relative tolerance, was not written to the model)
+        if rng.random() < 0.35:
+            named = sorted({rx["params"]["k"] for rx in spec["reactions"] if rx["type"] == "massaction" and isinstance(rx["params"].get("k"), str)})
+            if named: spec["parameters"][rng.choice(named)] = rng.choice([1200.0, 1500.0, 3000.0])
         cases.append({"spec": spec, "x": x, "t": 0.0, "strided_state": rng.random() < 0.3})
     # states at which a rate equation is EXACTLY zero in floating point (fixed points / nullcline points with round numbers): the
     # derivatives there are as non-zero as anywhere else (seeded change S4_C18: a species whose rate equation evaluates to 0 at the
@@ -175,7 +181,11 @@ def oracle(case, r):
         d1 = float(sp.diff(expr, var).subs(subs)) if var in expr.free_symbols else 0.0
         dq = abs(float(sp.diff(expr, var, q + 1).subs(subs))) if var in expr.free_symbols else 0.0
         dq2 = abs(float(sp.diff(expr, var, q + 2).subs(subs))) if var in expr.free_symbols else 0.0
-        bound = 3 * (c * h ** q * dq + h ** (q + 1) * dq2) + 1e-9 + 1e-9 * abs(d1)
+        # + floating-point cancellation in the stencil itself: the samples are sums of terms of size M, their differences are divided by h
+        # (matters once a rate constant is in the thousands)
+        try: M = sum(abs(float(t_.subs(subs))) for t_ in sp.Add.make_args(expr))
+        except Exception: M = 0.0
+        bound = 3 * (c * h ** q * dq + h ** (q + 1) * dq2) + 1e-9 + 1e-9 * abs(d1) + 64 * 2.220446049250313e-16 * M / h
         if not abs(got - d1) <= bound:
             return "%s %s: reported %r, analytic %r, bound %.3g" % (what, sch, got, d1, bound)
     if "newp" in r:
